@@ -139,7 +139,10 @@ def replay(case):
         try:
             # the Krylov space of (H, x0) must really be the whole space (no Lanczos breakdown)
             Kmat = np.stack([np.linalg.matrix_power(Hd, k) @ x0d for k in range(N)], axis=1)
-            sv = np.linalg.svd(Kmat / np.linalg.norm(Kmat, axis=0), compute_uv=False)
+            cn = np.linalg.norm(Kmat, axis=0)
+            if not np.all(np.isfinite(cn)) or np.min(cn) <= 1e-12 * np.max(cn):
+                raise StopIteration          # H^k x0 vanishes: the Krylov space is a proper subspace
+            sv = np.linalg.svd(Kmat / cn, compute_uv=False)
             if sv[-1] < 1e-5:
                 raise StopIteration
             t = ode.krylov(H, x0, N, h * 8, threshold=0, max_rank=64)
